@@ -159,7 +159,7 @@ pub const CORPUS: &[&str] = &[
     "SELECT id, coalesce(score, 0) AS c2, coalesce(cast(age AS float), score) AS c3 FROM users ORDER BY id",
     "SELECT id, greatest(age, score) AS g2, least(score, 1) AS l2 FROM users ORDER BY id",
     "SELECT id, concat(city, '-', city) AS cc, city || '/' || city AS pp, upper(lower(city)) AS ul, md5(city) AS h FROM users ORDER BY id",
-    "SELECT o.id, round(u.score, 1) AS r1, trunc(u.score, 1) AS t1, trunc(u.score) AS t0, round(o.amount, 0) AS r0 FROM orders AS o JOIN users AS u ON o.user_id = u.id ORDER BY o.id",
+    "SELECT o.id AS oid, round(u.score, 1) AS r1, trunc(u.score, 1) AS t1, trunc(u.score) AS t0, round(o.amount, 0) AS r0 FROM orders AS o JOIN users AS u ON o.user_id = u.id ORDER BY oid",
     "SELECT id, city ILIKE 'n%' AS il, city NOT LIKE 'N%' AS nl, city LIKE '%' AS al FROM users ORDER BY id",
     "SELECT id, age BETWEEN 20 AND 40 AS b, age NOT BETWEEN 20 AND 40 AS nb, age NOT IN (20, 21) AS ni FROM users ORDER BY id",
     "SELECT id, cast(score AS text) AS st, cast(vip AS text) AS vt FROM users ORDER BY id",
